@@ -51,6 +51,7 @@ type Exec struct {
 	houdini   bool
 	constMaps map[string]*constMap
 	suppressFacts int
+	invSuffix string
 }
 
 func newExec(P *Prog, fn *ssa.Function) *Exec {
@@ -421,6 +422,7 @@ type loopInfo struct {
 	cands     []Clause // surviving candidate invariants (Houdini)
 	decEntry  []Term
 	candsUsed []autoInv
+	headSt    *State
 }
 
 type retRec struct {
@@ -445,6 +447,8 @@ type Frame struct {
 	rangeIt map[ssa.Value]*rangeState
 	callOrd map[string]int
 	curBlock *ssa.BasicBlock
+	includeOwnBlock bool
+	ghostRes []Val
 }
 
 type rangeState struct {
@@ -702,6 +706,18 @@ func (ex *Exec) runFunc(fn *ssa.Function, args []Val, free []Val, st *State, inl
 					fr.closeLoop(fr.loops[s], b, cur)
 				}
 			}
+			// exits from the middle of a loop body: the declared invariants are
+			// re-established for the values at the exit (proved, then assumed)
+			for _, li := range fr.loops {
+				if li.spec == nil || !li.body[b] || b == li.header {
+					continue
+				}
+				for _, s := range b.Succs {
+					if !li.body[s] {
+						fr.exitLoop(li, b, s, cur)
+					}
+				}
+			}
 		}
 	}
 	// merge returns
@@ -907,4 +923,31 @@ func maxElems(sliceT types.Type) int64 {
 		sz = 1
 	}
 	return (int64(1) << 48) / sz
+}
+
+
+// heapTyping asserts, for a heap version that is not built from an older one
+// (entry state, havoc), that every reference stored in it has been allocated.
+// Loads under quantifiers rely on this (ground loads get the fact directly).
+func (ex *Exec) heapTyping(h *HeapInfo, t Term, alloc Term) {
+	if h.Dim < 1 || h.Dim > 2 || h.Leaf.Sort != SInt {
+		return
+	}
+	role := h.Leaf.Role
+	ok := role == "ref" || role == "arr"
+	if role == "pl" && h.Leaf.T != nil {
+		if it, isI := under(h.Leaf.T).(*types.Interface); isI && it.NumMethods() > 0 {
+			ok = true
+		}
+	}
+	if !ok {
+		return
+	}
+	r := Term{"tr", SInt}
+	if h.Dim == 1 {
+		ex.vc.assert(Forall([]string{"tr"}, Le(Select(t, r), alloc), Select(t, r)))
+		return
+	}
+	i := Term{"ti", SInt}
+	ex.vc.assert(Forall([]string{"tr", "ti"}, Le(Select(Select(t, r), i), alloc), Select(Select(t, r), i)))
 }
